@@ -781,8 +781,10 @@ class Pickled(OpcodeSequence):
     @property
     def properties(self) -> ASTProperties:
         if self._properties is None:
-            self._properties = ASTProperties()
-            self._properties.visit(self.ast)
+            # only cache the properties once the AST could be built and visited
+            properties = ASTProperties()
+            properties.visit(self.ast)
+            self._properties = properties
         return self._properties
 
     @property
